@@ -329,6 +329,7 @@ def helper_defs():
         Union('Un8', [(1, 'u64', 'a'), (2, 'u8', 'b'), (3, 'Fx2', 'c')]),             # size 16 align 8
         Struct('Fx12', [Member('a', 'u32'), Member('b', 'u32'), Member('c', 'u32')]),  # size 12 align 4
         Union('Un12', [(1, 'u64', 'a'), (2, 'Fx12', 'b')]),                           # size 24 align 8: largest arm 4-aligned
+        Typedef('TU64', 'u64'), Typedef('TTU64', 'TU64'), Typedef('TFx8', 'Fx8'), Typedef('TTFx8', 'TFx8'),
         Typedef('TDy4', 'Dy4'),                                                       # alias of a dynamic struct
         Typedef('TFx2', 'Fx2'),                                                       # alias of a fixed struct
         Struct('Gr1', [Member('x', 'u8'), Member('t', 'u8', GREEDY)]),                # unlimited align 1
@@ -384,6 +385,17 @@ PALETTE = [
 PALETTE_TAGS = [t for t, _ in PALETTE]
 PALETTE_MAP = dict(PALETTE)
 
+# usable in explicitly listed sequences (canaries) only: they do not take part in the exhaustive enumeration
+EXTRA = [
+    ('TU64*', lambda n: [Member(n, 'TU64', OPTIONAL)]),          # optional of a typedef of an 8-byte builtin
+    ('TTU64*', lambda n: [Member(n, 'TTU64', OPTIONAL)]),        # ... through two typedef levels
+    ('TFx8*', lambda n: [Member(n, 'TFx8', OPTIONAL)]),          # optional of a typedef of an 8-aligned struct
+    ('TTFx8*', lambda n: [Member(n, 'TTFx8', OPTIONAL)]),
+    ('TTU64', lambda n: [Member(n, 'TTU64')]),
+    ('TTU64[2]', lambda n: [Member(n, 'TTU64', FIXED, 2)]),
+]
+EXTRA_MAP = dict(EXTRA)
+
 GREEDY_TAILS = [
     ('u8<...>', lambda n: [Member(n, 'u8', GREEDY)]),
     ('u32<...>', lambda n: [Member(n, 'u32', GREEDY)]),
@@ -400,7 +412,7 @@ GREEDY_MAP = dict(GREEDY_TAILS)
 def seq_members(tags):
     mem = []
     for i, t in enumerate(tags):
-        b = PALETTE_MAP.get(t) or GREEDY_MAP[t]
+        b = PALETTE_MAP.get(t) or EXTRA_MAP.get(t) or GREEDY_MAP[t]
         mem.extend(b("f%d" % i))
     return mem
 
